@@ -262,7 +262,8 @@ theorem buffer_norm (kt : Bool) (st st1 : St) (x : Event) (ot : QName) (oa : Att
 
 theorem step_norm (c : Cfg) (kt : Bool) (st : St) (inO : Bool) (e : Event) (s' : Stream)
     (hinv : Inv kt st inO) (hopt : optText inO (e :: s') = true)
-    (hta : kt = true → isTextareaStart e = false)
+    (hta : kt = true → ∀ tag a, e = .start tag a → tag.loc = sTextarea →
+      (aget a sName).bind c.lookup = none)
     (st' : St) (o : Stream) (hstep : step c st e = some (st', o)) :
     ∃ inO', Inv kt st' inO' ∧ optText inO' s' = true ∧
       norm kt o ++ norm kt (pend st') = norm kt (pend st) ++ norm kt [e] := by
@@ -354,15 +355,16 @@ theorem step_norm (c : Cfg) (kt : Bool) (st : St) (inO : Bool) (e : Event) (s' :
                 exact ⟨inO', keep _ hp hTx hOp hinv.ta, hopt1, keep_norm kt st _ _ hp hp⟩
             · split at hstep
               · rename_i hta'
-                have hkt : kt = false := by
-                  cases kt with
-                  | false => rfl
-                  | true =>
-                    have := hta rfl
-                    simp [isTextareaStart] at this
-                    exact absurd hta' this
                 split at hstep
-                · simp only [Option.some.injEq, Prod.mk.injEq] at hstep
+                · rename_i v hv
+                  have hkt : kt = false := by
+                    cases kt with
+                    | false => rfl
+                    | true =>
+                      have := hta rfl tag a rfl hta'
+                      rw [this] at hv
+                      exact absurd hv (by simp)
+                  simp only [Option.some.injEq, Prod.mk.injEq] at hstep
                   obtain ⟨rfl, rfl⟩ := hstep
                   exact ⟨inO', keep _ hp hTx hOp (by intro h; simp [hkt] at h), hopt1, keep_norm kt st _ _ hp hp⟩
                 · simp only [Option.some.injEq, Prod.mk.injEq] at hstep
@@ -449,7 +451,8 @@ theorem step_norm (c : Cfg) (kt : Bool) (st : St) (inO : Bool) (e : Event) (s' :
 
 
 theorem fillGo_norm (c : Cfg) (kt : Bool) : ∀ (s : Stream) (st : St) (inO : Bool),
-    Inv kt st inO → optText inO s = true → (kt = true → ∀ e ∈ s, isTextareaStart e = false) →
+    Inv kt st inO → optText inO s = true →
+    (kt = true → ∀ tag a, Event.start tag a ∈ s → tag.loc = sTextarea → (aget a sName).bind c.lookup = none) →
     ∀ out, fillGo c st s = some out → norm kt out = norm kt (pend st ++ s) := by
   intro s
   induction s with
@@ -480,8 +483,8 @@ theorem fillGo_norm (c : Cfg) (kt : Bool) : ∀ (s : Stream) (st : St) (inO : Bo
         have h' : o ++ out' = out := by simpa [hr] using h
         subst h'
         obtain ⟨inO', hinv', hopt', hn⟩ := step_norm c kt st inO e s hinv hopt
-          (fun hk => hta hk e (by simp)) st' o hs
-        have := ih st' inO' hinv' hopt' (fun hk e' he' => hta hk e' (by simp [he'])) out' hr
+          (fun hk tag a he => hta hk tag a (by simp [he])) st' o hs
+        have := ih st' inO' hinv' hopt' (fun hk tag a he' => hta hk tag a (by simp [he'])) out' hr
         rw [norm_append, this, norm_append, ← List.append_assoc, hn, norm_append, List.append_assoc,
           ← norm_append kt [e] s]
         rfl
@@ -495,9 +498,10 @@ theorem fill_norm (c : Cfg) (s out : Stream) (hopt : optText false s = true)
   have := fillGo_norm c false s {} false (inv_init false) hopt (by intro h; simp at h) out h
   simpa [pend] using this
 
-/-- without textarea elements it changes nothing but those attributes -/
+/-- without textarea elements named in the data it changes nothing but those attributes -/
 theorem fill_norm_text (c : Cfg) (s out : Stream) (hopt : optText false s = true)
-    (hta : ∀ e ∈ s, isTextareaStart e = false) (h : fill c s = some out) :
+    (hta : ∀ tag a, Event.start tag a ∈ s → tag.loc = sTextarea → (aget a sName).bind c.lookup = none)
+    (h : fill c s = some out) :
     norm true out = norm true s := by
   have := fillGo_norm c true s {} false (inv_init true) hopt (fun _ => hta) out h
   simpa [pend] using this
